@@ -24,6 +24,9 @@
                       C<q>:<k> WillIterateCycle
     set <i> <v> <d|k>             write input i (new revision), durability d or kept    -> `ok`
     synth <d>                     synthetic write of durability d (new revision)        -> `ok`
+  `svdriver cyclerev-cert` is the same protocol with ` cert=<0|1>` appended to every `v=` answer:
+  the closed-table certificate `certB` of the model file for that answer in the state after the
+  request (`Props/C12Rev.lean: c12rev_exact_if_closed` turns `cert=1` into "the answer is lfp").
   A case that uses anything else (`b` lines, other kinds or operators, cells, lru, inject, …) is
   outside the model: the offending line and every later line of the case answer `unsupported`.
   Lines before the first `prog` answer `bad-op`.
@@ -106,7 +109,7 @@ def DSt.state (st : DSt) : St :=
   | some s => s
   | none => St.init st.n st.inputs
 
-def handle (st : DSt) (line : String) : Option (DSt × String) :=
+def handle (cert : Bool) (st : DSt) (line : String) : Option (DSt × String) :=
   match SalsaVerif.Drive.words line with
   | ["prog", n, ni, nc] => do
     let n ← nat? n; let ni ← nat? ni; let nc ← nat? nc
@@ -130,7 +133,10 @@ def handle (st : DSt) (line : String) : Option (DSt × String) :=
     let r := match o with
       | .value v => s!"v={v}"
       | .panic c => fmtClass c
-    some ({ st with db := some s' }, s!"{r} ev={fmtEvs s'.evs}")
+    let ct := match o with
+      | .value v => if cert then (if certB st.prog s' q v then " cert=1" else " cert=0") else ""
+      | .panic _ => ""
+    some ({ st with db := some s' }, s!"{r} ev={fmtEvs s'.evs}{ct}")
   | ["set", i, v, d] => do
     let i ← nat? i; let v ← nat? v
     let nd ← if d = "k" then some none else (nat? d).map some
@@ -142,18 +148,19 @@ def handle (st : DSt) (line : String) : Option (DSt × String) :=
     some ({ st with db := some (synth st.state d) }, "ok")
   | _ => none
 
-def step (st : DSt) (line : String) : DSt × String :=
+def step (cert : Bool) (st : DSt) (line : String) : DSt × String :=
   if line.startsWith "prog " then
-    match handle {} line with
+    match handle cert {} line with
     | some r => r
     | none => ({ active := true, ok := false }, "unsupported")
   else if !st.active then (st, "bad-op")
   else if !st.ok then (st, "unsupported")
   else
-    match handle st line with
+    match handle cert st line with
     | some r => r
     | none => ({ st with ok := false }, "unsupported")
 
-def main : IO Unit := SalsaVerif.Drive.runLoop ({} : DSt) step
+def main (cert : Bool := false) : IO Unit := SalsaVerif.Drive.runLoop ({} : DSt) (step cert)
 
 end SalsaVerif.Drive.CycleRev
+
